@@ -13,6 +13,7 @@
 import CRProofs.CRState
 import CRProofs.Decimal
 import CRProofs.CRNorm
+import CRProofs.CRFile
 import Mathlib.Data.List.Perm.Subperm
 
 namespace CR.X
@@ -306,6 +307,45 @@ theorem C01_norm_close_partial (cfg : Cfg) (d : Doc) :
     intro l _
     simp only [Function.comp, lightE_norm_eq, Light.canon, Light.mapR]
     cases l.cycle <;> rfl
+
+/-! ## the whole file tree -/
+
+/-- the state-class table of a file configuration is the one every country's configuration uses -/
+theorem FileCfg.cfgFor_classes (fc : FileCfg) (bid : String) : (fc.cfgFor bid).classes = fc.classes := rfl
+
+/-- **xml_roundtrip for the whole file**: the `<commonRoad>` element the writer builds — root attributes (time step size,
+    version, author, affiliation, source, benchmark id, date), `location` (geo name id, gps, geo transformation, environment
+    with clock time / time of day / weather / underground), `scenarioTags` and the body — read by `XMLFileReader.open`
+    yields `normFile` of the original.  The sign table the reader uses is the one of the country named in the benchmark id
+    (`countryOf`), the date is written and never read. -/
+theorem C01_xml_roundtrip_whole_file (fc : FileCfg) (hcfg : ∀ C, C ∈ fc.classes → ∀ a, a ∈ C → propName (xmlName a) = a)
+    (hne : fc.classes ≠ []) (f : File) (hok : okFile fc f) :
+    decodeFile fc (encodeFile fc f) = some (normFile fc f) :=
+  decodeFile_encodeFile fc f (stateLaws (fc.cfgFor f.header.benchmarkId) hcfg hne) hok
+
+/-- the header comes back as written (the time step size in plain decimal notation), the date is not part of the content -/
+theorem C01_header_kept (fc : FileCfg) (f : File) :
+    (normFile fc f).header = ⟨decimalToStr fc.P f.header.dt, f.header.author, f.header.affiliation, f.header.source, f.header.benchmarkId⟩ :=
+  rfl
+
+/-- the tags come back as the set they are: each known tag once, in the order of the `Tag` enumeration -/
+theorem C01_tags_kept (fc : FileCfg) (f : File) : (normFile fc f).tags = allTags.filter (fun t => f.tags.contains t) := rfl
+
+/-- **norm_close for the whole file**: `normFile = mapR ∘ canon` (a missing location becomes the default location, the tags
+    are put in enumeration order, the body as in `C01_norm_eq_mapR_canon`), and on strict files nothing but the reals changes -/
+theorem C01_file_norm_eq_mapR_canon (fc : FileCfg) (hd : 1 ≤ fc.P.d) (hne : fc.classes ≠ []) (f : File)
+    (hl : ∀ l, l ∈ f.body.lanelets → l.Ok) : normFile fc f = (f.canon fc).mapR (realMaps fc.P) := normFile_eq fc hd hne f hl
+
+theorem C01_file_norm_close_full (fc : FileCfg) (hd : 1 ≤ fc.P.d) (hne : fc.classes ≠ []) (f : File) (h : f.Strict fc) :
+    normFile fc f = f.mapR (realMaps fc.P) := by
+  rw [normFile_eq fc hd hne f (fun l hl => (h.body.lanelets l hl).ok), File.canon_id fc f h]
+
+/-- a cooperative id names its country after "C-"; an unsupported country falls back to Zamunda -/
+example : countryOf ["DEU", "USA", "ZAM"] "C-USA_US101-1_1_T-1" = "USA" ∧ countryOf ["DEU", "USA", "ZAM"] "DEU_Muc-3_1_T-1" = "DEU"
+    ∧ countryOf ["DEU", "USA", "ZAM"] "XYZ_Test-1_1_T-1" = "ZAM" := by decide
+
+/-- the clock text: 7:05 is written "07:05:00" and read back as (7, 5) -/
+example : Prim.clock.fmt (7, 5) = "07:05:00" ∧ Prim.clock.read "07:05:00" = some (7, 5) := by decide
 
 /-! ## non-vacuity -/
 
